@@ -15,8 +15,8 @@ EXTENDS DrawGeom
 
 CONSTANTS MaxWord,      \* maximal length of the transformation word
           MaxVerts,     \* maximal number of points of a scene
-          Core          \* 1: the small set of special points, 2: all special points, 3: special points and the
-                        \* whole box universe of HypCoords
+          Core          \* 1: the small set of special points, 2: all special points, 3: special points, band points and
+                        \* the whole box universe of HypCoords, 4: the band points (triangles only over a band pair)
 
 VARIABLES word, verts, last
 
@@ -27,9 +27,22 @@ CoreInterior == {P3(1, 0, 0), P3(3, 2, 2), P3(3, 0 - 2, 0 - 2), P3(9, 4, 0 - 8),
                  P3(7, 2, 6), P3(9, 4, 1), P3(11, 0 - 9, 0 - 2), P3(11, 0 - 6, 0 - 7), P3(11, 6, 0 - 2)}
 CoreIdeal == {P3(1, 0 - 1, 0), P3(5, 3, 4), P3(5, 0 - 4, 3), P3(1, 0, 0 - 1), P3(1, 1, 0)}
 Special == CoreInterior \cup CoreIdeal
-SpecialSmall == Special \ {P3(5, 0, 4), P3(7, 2, 6), P3(1, 0 - 1, 0), P3(5, 0 - 4, 3), P3(1, 1, 0)}
+SpecialSmall == Special \ {P3(5, 0, 4), P3(7, 2, 6), P3(5, 3, 0), P3(1, 0 - 1, 0), P3(5, 0 - 4, 3), P3(1, 1, 0)}
+\* points whose pairs lie on circles of radius in the bands (Threshold/2, Threshold) and (Threshold, 2 Threshold) for
+\* Threshold = 80 - where a wrong comparison with the threshold (diameter for radius, squared for plain, ...) shows:
+\*   Poincare    (3,-2,-1)-(9,7,4) 44.3   (5,3,4)-(7,-2,-3) 53 (one ideal end)   (9,-4,-1)-(15,10,2) 76.8
+\*               (7,-2,-3)-(13,3,4) 81.8  (9,4,1)-(11,-9,-2) 128   ideal-ideal (29,-21,-20)-(29,20,21) 41
+\*   half-plane  (5,4,0)-(9,-4,-1) 56.1   (5,4,0)-(9,-8,-1) 76.1   (7,-6,-2)-(13,12,0) 81.2   (11,-6,-7)-(11,6,-2) 132
+BandPts == {P3(3, 0 - 2, 0 - 1), P3(9, 7, 4), P3(5, 4, 0), P3(9, 0 - 8, 0 - 1), P3(9, 0 - 4, 0 - 1), P3(15, 10, 2), P3(7, 0 - 6, 0 - 2),
+            P3(13, 12, 0), P3(7, 0 - 2, 0 - 3), P3(13, 3, 4), P3(9, 4, 1), P3(11, 0 - 9, 0 - 2), P3(11, 0 - 6, 0 - 7), P3(11, 6, 0 - 2),
+            P3(5, 3, 4), P3(29, 0 - 21, 0 - 20), P3(29, 20, 21)}
+\* radius^2 in [Threshold^2 / 4, 4 Threshold^2), by floor division
+DgInBand(m, n) == DgW(m, n) # 0 /\ LET q == MNorm(n) \div (DgW(m, n) * DgW(m, n)) IN T2 \div 4 <= q /\ q < 4 * T2
+BandPair(x, y) == \E m \in {"poincare", "halfplane"} :
+                    DgDefined(m, x) /\ DgDefined(m, y) /\ DgInView(m, x) /\ DgInView(m, y) /\ DgInBand(m, DgNormal(x, y))
+BandThird == {P3(5, 4, 0), P3(9, 7, 4), P3(13, 3, 4)}          \* Core = 4: third vertices of the triangles over a band pair
 Universe == HC!Points                      \* the box universe: quantifier domain of the theorems
-Pts == CASE Core = 1 -> SpecialSmall [] Core = 2 -> Special [] Core = 3 -> Universe \cup Special
+Pts == CASE Core = 1 -> SpecialSmall [] Core = 2 -> Special [] Core = 3 -> Universe \cup Special \cup BandPts [] Core = 4 -> BandPts
 
 Atoms == Iso!ExactAtoms
 
@@ -48,6 +61,7 @@ Precompose(a) ==
 AddVertex(v) ==
   /\ Len(verts) < MaxVerts /\ v \notin Range(verts)
   /\ DgSmall(DgAct(T, v))
+  /\ (Core = 4 /\ Len(verts) >= 2) => (BandPair(verts[1], verts[2]) /\ v \in BandThird)
   /\ verts' = Append(verts, v) /\ UNCHANGED word /\ last' = [a |-> "add_vertex"]
 
 Next == \/ \E a \in Atoms : AddTransform(a) \/ Precompose(a)
@@ -140,4 +154,11 @@ KindsCovered ==
      \E x, y \in SpecialSmall : x # y /\ DgDefined(m, x) /\ DgDefined(m, y) /\ DgInView(m, x) /\ DgInView(m, y)
                            /\ DgKind(m, DgNormal(x, y)) = k
 ASSUME KindsCovered
+\* ... and (for the library's threshold 80) the band points put edges on both sides of the threshold, within a factor 2
+BandsCovered ==
+  Threshold = 80 =>
+    \A m \in {"poincare", "halfplane"} : \A k \in {"arc", "chord"} :
+       \E x, y \in BandPts : x # y /\ DgDefined(m, x) /\ DgDefined(m, y) /\ DgInView(m, x) /\ DgInView(m, y)
+                              /\ DgInBand(m, DgNormal(x, y)) /\ DgKind(m, DgNormal(x, y)) = k
+ASSUME BandsCovered
 =============================================================================
